@@ -462,13 +462,20 @@ func cmdCheck(args []string) {
 		for _, a := range fc.assumes {
 			contractAssumes = append(contractAssumes, k+": assumes "+a.text)
 		}
+
 		for site, as := range fc.atAssume {
 			for _, a := range as {
 				contractAssumes = append(contractAssumes, k+": at "+site+" assume "+a.text)
 			}
 		}
+	}
+	// callee contracts that are assumed rather than proved matter to every caller: list them all
+	for ck, fc := range g.ann.funcs {
 		if fc.trusted {
-			contractAssumes = append(contractAssumes, k+": trusted (contract assumed, body not checked)")
+			contractAssumes = append(contractAssumes, ck+": trusted (contract assumed, body not checked)")
+		}
+		for _, a := range fc.trusts {
+			contractAssumes = append(contractAssumes, ck+": trusts (postcondition assumed by callers, not checked against the body) "+a.text)
 		}
 	}
 	sort.Strings(contractAssumes)
@@ -612,6 +619,19 @@ func extractModel(m string) map[string]string {
 			v = "-" + strings.TrimSuffix(v[3:], ")")
 		}
 		out[mm[1]] = v
+	}
+	// interface-typed constants: (mk_iface tag int str bool real slice)
+	ri := regexp.MustCompile(`\(define-fun \|?([^|\s]+)\|? \(\) Iface\s+\(mk_iface (\(- \d+\)|-?\d+) (\(- \d+\)|-?\d+) \S+ (true|false)`)
+	for _, mm := range ri.FindAllStringSubmatch(m, -1) {
+		num := func(v string) string {
+			if strings.HasPrefix(v, "(- ") {
+				return "-" + strings.TrimSuffix(v[3:], ")")
+			}
+			return v
+		}
+		out[mm[1]+".tag"] = num(mm[2])
+		out[mm[1]+".int"] = num(mm[3])
+		out[mm[1]+".bool"] = mm[4]
 	}
 	return out
 }
